@@ -44,10 +44,10 @@ Proof.
     as [[E1 E2]|(m1 & v0 & m2 & E1 & E2 & E3)].
   - rewrite E2. unfold flatten. rewrite flat_map_app. cbn. rewrite app_nil_r.
     apply Permutation_app_head.
-    assert (I : inn = []) by (unfold inn, get_or; rewrite E1; reflexivity).
+    assert (I : inn = []) by (unfold inn, get_or; unfold inner in *; rewrite E1; reflexivity).
     rewrite I. cbn. reflexivity.
   - rewrite E3.
-    assert (I : inn = v0) by (unfold inn, get_or; rewrite E2; reflexivity).
+    assert (I : inn = v0) by (unfold inn, get_or; unfold inner in *; rewrite E2; reflexivity).
     rewrite I. rewrite E1. unfold flatten. rewrite !flat_map_app. cbn.
     rewrite (flat_inner_insert k t e v0).
     rewrite <- !app_assoc. apply Permutation_app_head. apply Permutation_app_head. cbn.
@@ -106,13 +106,11 @@ Qed.
 Lemma append_points_rows acc c m : append_points acc c = Ok m -> rows m = rows_of acc ++ rows c.
 Proof.
   destruct acc as [m0|]; cbn; [|intros [= ->]; reflexivity].
-  destruct (rows m0) eqn:R0; cbn.
-  - destruct (rows c) eqn:Rc; cbn.
-    + intros [= <-]. rewrite R0. reflexivity.
-    + intros [= <-]. rewrite Rc. reflexivity.
-  - destruct (rows c) eqn:Rc; cbn.
-    + intros [= <-]. rewrite R0, app_nil_r. reflexivity.
-    + destruct (width m0 =? width c); cbn; [|discriminate]. intros [= <-]. cbn. rewrite R0. reflexivity.
+  destruct (rows m0) as [|r0 l0] eqn:R0; destruct (rows c) as [|rc lc] eqn:Rc; cbn.
+  - intros [= <-]. rewrite R0. reflexivity.
+  - intros [= <-]. rewrite Rc. reflexivity.
+  - intros [= <-]. rewrite R0, app_nil_r. reflexivity.
+  - destruct (width m0 =? width c); cbn; [|discriminate]. intros [= <-]. reflexivity.
 Qed.
 
 Lemma merge_po_from_spec ins : forall acc mo acc' mo',
@@ -126,17 +124,18 @@ Proof.
   - destruct (append_points acc c) as [m|] eqn:A; [|discriminate].
     intros E. apply IH in E. destruct E as (R & P & G).
     apply append_points_rows in A. cbn [rows_of] in R, P, G. rewrite A in R, P, G.
-    rewrite app_length in P, G. unfold count_in at 1. cbn [fst].
+    rewrite app_length in P, G.
+    cbn [spec_obs]. change (count_in (Some c, oo)) with (List.length (rows c)).
     split; [|split].
     + rewrite R. cbn [all_rows flat_map fst]. rewrite app_assoc. reflexivity.
-    + rewrite P. cbn [spec_obs]. destruct oo as [o|].
+    + rewrite P. destruct oo as [o|].
       * unfold shift_add, npoints. rewrite flatten_add_all. rewrite <- app_assoc. reflexivity.
       * reflexivity.
-    + intros k t. rewrite G. cbn [spec_obs]. destruct oo as [o|].
+    + intros k t. rewrite G. destruct oo as [o|].
       * unfold shift_add, npoints. rewrite get_add_all, obs_at_app, obs_at_shift, <- app_assoc. reflexivity.
       * reflexivity.
-  - intros E. apply IH in E. destruct E as (R & P & G). cbn [spec_obs all_rows flat_map fst].
-    unfold count_in; cbn [fst]. rewrite Nat.add_0_r. auto.
+  - intros E. apply IH in E. destruct E as (R & P & G). cbn [spec_obs all_rows flat_map fst app].
+    change (count_in (None, oo)) with 0%nat. rewrite Nat.add_0_r. auto.
 Qed.
 
 Lemma rows_of_finish acc : rows (finish acc) = rows_of acc.
@@ -196,7 +195,7 @@ Proof.
   - rewrite in_app_iff, IH. split.
     + intros [I|(i & c & o & y & E & I & ->)].
       * destruct a as [[c|] [o|]]; try (destruct I; fail).
-        apply in_map_iff in I. destruct I as (y & <- & I). exists 0%nat, c, o, y. cbn. rewrite offset_0, Nat.add_0_r. auto.
+        apply in_map_iff in I. destruct I as (y & <- & I). exists 0%nat, c, o, y. rewrite offset_0, Nat.add_0_r. cbn. auto.
       * exists (S i), c, o, y. cbn [nth_error]. rewrite offset_S, Nat.add_assoc. auto.
     + intros (i & c & o & y & E & I & ->). destruct i as [|i].
       * cbn in E. injection E as ->. left. rewrite offset_0, Nat.add_0_r. apply in_map. exact I.
@@ -241,7 +240,7 @@ Proof.
   - inversion V as [|? ? Va V']; subst. cbn [spec_obs]. rewrite obs_at_app, offset_S.
     rewrite (obs_at_out_of_range _ t (match a with (Some _, Some o0) => _ | _ => [] end)).
     + cbn [app]. replace (off + (count_in a + offset ins i) + j)%nat with (off + count_in a + offset ins i + j)%nat by lia.
-      apply IH; auto.
+      apply (IH _ i c o j t V' E L).
     + destruct a as [[c0|] [o0|]]; try constructor. cbn in Va. rewrite Forall_map.
       eapply Forall_impl; [|exact Va]. intros [[[k0 t0] img] f]; cbn. unfold count_in; cbn. intros; lia.
 Qed.
@@ -271,8 +270,7 @@ Proof.
     + destruct (rows c) eqn:Rc; cbn.
       * rewrite R0; cbn. split; [tauto|]. intros a b; cbn; intuition congruence.
       * destruct (Z.eqb_spec (width m0) (width c)) as [E|N]; cbn.
-        -- destruct (l ++ _) eqn:X; [destruct l; discriminate|]. cbn. rewrite E. split; [tauto|].
-           intros a b; cbn; intuition congruence.
+        -- rewrite E. split; [tauto|]. intros a b; cbn; intuition congruence.
         -- intros U. apply N. apply U; cbn; auto.
   - destruct (isnil (rows c)); cbn; split; try tauto; intros a b; cbn; intuition congruence.
 Qed.
@@ -345,7 +343,7 @@ Proof.
   - intros [= <- <-]. exact Wa.
   - inversion Wi as [|? ? Wc Wi']; subst. cbn in Wc.
     destruct (append_points acc c) as [m|] eqn:A; [|discriminate]. intros E.
-    apply (IH _ _ _ _ (append_points_wf _ _ _ Wa Wc A) Wi' E).
+    apply (IH (Some m) _ _ _ (append_points_wf _ _ _ Wa Wc A) Wi' E).
   - inversion Wi as [|? ? Wc Wi']; subst. intros E. apply (IH _ _ _ _ Wa Wi' E).
 Qed.
 
@@ -354,7 +352,7 @@ Lemma merge_po_wf ins c o :
   merge_po ins = Ok (c, o) -> wf_cloud c.
 Proof.
   unfold merge_po. intros W. destruct (merge_po_from None [] ins) as [[acc mo]|] eqn:E; [|discriminate].
-  intros [= <- <-]. apply (merge_po_from_wf _ _ _ _ _ I W) in E. destruct acc; [exact E|constructor].
+  intros [= <- <-]. apply (merge_po_from_wf ins None [] acc mo I W) in E. destruct acc; [exact E|constructor].
 Qed.
 
 (* ------------------------------------------------------------------ points-only merge = projection *)
@@ -476,4 +474,27 @@ Proof.
     pose proof (find_none _ _ F e I) as X. cbn in X. rewrite eqb_refl in X. discriminate.
   - intros N. destruct (find _ es) as [e|] eqn:F; [|reflexivity]. exfalso. apply N.
     apply find_some in F. destruct F as [I E]. apply eqb_true in E. subst p. apply in_map. exact I.
+Qed.
+
+(* ------------------------------------------------------------------ inputs without points *)
+Lemma merge_po_from_skip_none l1 : forall acc mo oo l2,
+  merge_po_from acc mo (l1 ++ (None, oo) :: l2) = merge_po_from acc mo (l1 ++ l2).
+Proof.
+  induction l1 as [|[[c|] o1] l1 IH]; intros acc mo oo l2; cbn; [reflexivity| |apply IH].
+  destruct (append_points acc c); [apply IH|reflexivity].
+Qed.
+
+Lemma merge_po_skip_none l1 oo l2 : merge_po (l1 ++ (None, oo) :: l2) = merge_po (l1 ++ l2).
+Proof. unfold merge_po. rewrite merge_po_from_skip_none. reflexivity. Qed.
+
+(* the merged observations contain a given tuple iff it is a shifted observation of an input with points *)
+Lemma merge_obs_In ins c o x :
+  merge_po ins = Ok (c, o) ->
+  (In x (flatten o) <->
+   exists i ci oi y, nth_error ins i = Some (Some ci, Some oi) /\ In y (flatten oi) /\
+                     x = shift (Z.of_nat (offset ins i)) y).
+Proof.
+  intros E. pose proof (merge_obs_perm _ _ _ E) as P. rewrite <- (In_spec_obs ins 0 x). split; intros I.
+  - eapply Permutation_in; [exact P|exact I].
+  - eapply Permutation_in; [apply Permutation_sym; exact P|exact I].
 Qed.
